@@ -24,6 +24,8 @@ pub struct Module {
     pub exposed: Vec<Exposed>,
     /// extra statements for the dispatch function: (key, rust expression of type String using `json: &str`)
     pub custom: Vec<(String, String)>,
+    /// items placed in the module file OUTSIDE the wrapper (reachable as `super::super::x` from the generated module)
+    pub outer: String,
 }
 
 pub struct Consumer {
@@ -34,6 +36,8 @@ pub struct Consumer {
     pub with_serde_dep: bool,
     pub bin: Option<PathBuf>,
     pub build_log: String,
+    /// items placed at the crate root (main.rs)
+    pub crate_prelude: String,
 }
 
 fn repo() -> String {
@@ -51,7 +55,7 @@ impl Consumer {
         let dir = PathBuf::from(base).join(format!("cons-{}-{}", tag, std::process::id()));
         let _ = std::fs::remove_dir_all(&dir);
         std::fs::create_dir_all(dir.join("src")).unwrap();
-        Consumer { dir, modules: vec![], status: vec![], with_serde_dep, bin: None, build_log: String::new() }
+        Consumer { dir, modules: vec![], status: vec![], with_serde_dep, bin: None, build_log: String::new(), crate_prelude: String::new() }
     }
 
     pub fn add(&mut self, m: Module) -> usize {
@@ -66,7 +70,8 @@ impl Consumer {
         }
         let mut s = String::new();
         s.push_str("#![allow(warnings)]\n");
-        s.push_str("pub mod w {\n");
+        s.push_str(&m.outer);
+        s.push_str("\npub mod w {\n");
         s.push_str(&m.prelude);
         s.push('\n');
         s.push_str(&m.code);
@@ -98,6 +103,8 @@ impl Consumer {
         let _ = std::fs::copy(format!("{}/Cargo.lock", repo()), self.dir.join("Cargo.lock"));
         let mut main = String::new();
         main.push_str("#![allow(warnings)]\nuse std::io::BufRead;\n");
+        main.push_str(&self.crate_prelude);
+        main.push('\n');
         for k in 0..self.modules.len() {
             main.push_str(&format!("mod m{};\n", k));
         }
